@@ -362,7 +362,7 @@ pub fn gen_spec(rng: &mut Rng) -> AssetSpec {
     s
 }
 
-pub const REQUIRED: &[&str] = &["each_field_alone", "all_absent", "all_present", "adjacent_pairs", "no_specs"];
+pub const REQUIRED: &[&str] = &["each_field_alone", "all_absent", "all_present", "adjacent_pairs", "no_specs", "poisoned_by_failing_calls_first"];
 
 pub fn run(cx: &mut Ctx) {
     cx.require(REQUIRED);
@@ -425,6 +425,7 @@ pub fn run(cx: &mut Ctx) {
     let n = cx.a.n(100_000, 1_000_000);
     for _ in 0..n {
         cx.case("random", |c| {
+            super::poison::maybe(c, 9);
             let mut rng = c.rng.clone();
             let nspecs = if miri { rng.range(0, 2) } else { rng.range(0, 20) };
             let specs: Vec<AssetSpec> = (0..nspecs).map(|_| gen_spec(&mut rng)).collect();
